@@ -27,6 +27,8 @@ LAYOUT_ZOO = [
     # values, iterables and context expressions that span lines, targets read on the line they are bound on
     'def f(items, key):\n    out = [key(i) for i in items if i]\n    total = sum(out, key(0))\n    while (n := len(out)) > total: out.pop(); total = n\n'
     '    with open(key(n)) as a, open(key(a)) as b:\n        res = (a, b, total, n)\n    for x, (y, z) in zip(out, res): w = x; print(w, y, z)\n    return res, out\n',
+    # a `from` that is no import and may start a physical line of its own
+    'def f(value, parts):\n    try:\n        pass\n    except Exception as err:\n        raise TypeError(value) from err\n    x = yield from parts\n    return x, value\n',
     # a keyword argument written before a starred one: the same tree as the other order (what ast.unparse prints)
     # (a walrus inside the keyword, read by the starred argument, is a question of evaluation order, not of layout: 12.6)
     'def f(*a, **k):\n    return a\nx = [0]\nx = f(k=1, *x)\nclass M(type):\n    pass\nB = [object]\nclass C(metaclass=M, *B):\n    pass\ny = [1]\n'
